@@ -11,7 +11,7 @@ For every test (set-up, call and tear-down phases together) the plugin records
          Pieces of RandomWalk driven directly by a unit test (update_positions, _rewind, run_molecule ... outside
          run_system) are not complete behaviours of Walk: they are counted, not recorded.
   ENGINE one trace per NonBondEngine object: init (constructor) / add / remove / concat with the projected state after the
-         call (position table, index list per tree, contents of every tree) and the read-only calls query
+         call (position table, index list per tree, node -> tree map, contents of every tree) and the read-only calls query
          (compute_force_point), dist (pbc_min_dist) and point (get_point).  Float points are opaque tokens (first seen =
          1, 2, ...; "no position" = -1): spec/NBTraceAbs.tla validates the four views action by action, the metric part
          of a query is judged by an independent brute-force monitor here (minimum-image distances, 12-6 force) whose
@@ -161,7 +161,8 @@ class EngineRec:
             cache[id(t)] = ent
             trees.append(list(ent[1]))
         self.tree_cache = cache
-        return {"pos": list(self.pos), "defined": [[int(g) for g in d] for d in eng.defined_idxs], "trees": trees}
+        return {"pos": list(self.pos), "defined": [[int(g) for g in d] for d in eng.defined_idxs], "trees": trees,
+                "treeof": sorted([int(g), int(t)] for g, t in eng.gndx_to_tree.items())}
 
     def event(self, ev, mut=False, verdict=True):
         if not verdict and CUR is not None:
